@@ -110,6 +110,8 @@ def block_configs(seed, thorough):
     pairs = [(Fd, Ts) for Ts in TS for Fd in FD if Fd * Ts <= 0.5 and Fd > 0] if thorough else BLOCK_FDTS
     for shape in BLOCK_SHAPES:
         for L in LS:
+            if not thorough and shape is not None and L == 1:
+                continue                     # quick budget: the array shape only with L = 8
             for Fd, Ts in pairs:
                 out.append(dict(Fd=Fd, Ts=Ts, L=L, shape=shape, big=False, block=True))
     for i, c in enumerate(out):
@@ -155,13 +157,40 @@ class JState:
         self.k_before = 0
 
 
-def new_generator(cfg):
+def _tup(shape):
+    return tuple(shape) if isinstance(shape, list) else shape
+
+
+def derive(cfg):
+    """obtain the generator the way cfg["root"] says: constructor (default), get_similar_fading_generator()
+    of a parent that already ran, or the shape setter mid-history.  Returns dict(g, parent, parent_*)"""
     from pyphysim.channels.fading_generators import JakesSampleGenerator
-    shape = cfg["shape"]
-    if isinstance(shape, list):
-        shape = tuple(shape)
-    return JakesSampleGenerator(cfg["Fd"], cfg["Ts"], cfg["L"], shape,
-                                np.random.RandomState(cfg["rs_seed"]))
+    root = cfg.get("root") or ("ctor",)
+    rs = np.random.RandomState(cfg["rs_seed"])
+    if root[0] == "ctor":
+        return dict(g=JakesSampleGenerator(cfg["Fd"], cfg["Ts"], cfg["L"], _tup(cfg["shape"]), rs), parent=None)
+    if root[0] == "similar":
+        p = JakesSampleGenerator(cfg["Fd"], cfg["Ts"], cfg["L"], _tup(cfg["shape"]), rs)
+        out = dict(parent=p, parent_phi=np.array(p._phi_l, dtype=float, copy=True),
+                   parent_psi=np.array(p._psi_l, dtype=float, copy=True),
+                   parent_s0=np.array(p.get_samples(), copy=True))
+        for kind, n in root[1]:
+            (p.generate_more_samples if kind == "generate" else p.skip_samples_for_next_generation)(n)
+        # the unchanged tree draws the child's phases from the global numpy RNG: own it
+        np.random.seed(cfg["rs_seed"] % (2 ** 31) + 11)
+        out["g"] = p.get_similar_fading_generator()
+        return out
+    if root[0] == "shape":
+        g = JakesSampleGenerator(cfg["Fd"], cfg["Ts"], cfg["L"], _tup(root[1]), rs)
+        for kind, n in root[2]:
+            (g.generate_more_samples if kind == "generate" else g.skip_samples_for_next_generation)(n)
+        g.shape = _tup(cfg["shape"])
+        return dict(g=g, parent=None)
+    raise KeyError(root)
+
+
+def new_generator(cfg):
+    return derive(cfg)["g"]
 
 
 def build(cfg, hist):
@@ -234,8 +263,9 @@ def case_of(cfg, hist):
             "history": [list(h) for h in hist]}
 
 
-def check_state(chk, cfg, hist, st):
-    case = case_of(cfg, hist)
+def check_state(chk, cfg, hist, st, case=None):
+    case = case_of(cfg, hist) if case is None else case
+    ks = cfg.get("k_start", 1)        # position right after the generator was obtained
     L, Fd = cfg["L"], cfg["Fd"]
     shp = shape_tuple(cfg["shape"])
     if st.err is not None:
@@ -254,13 +284,17 @@ def check_state(chk, cfg, hist, st):
     g = st.g
     if not hist:
         chk.count("eval_construct")
+        how = {"similar": "get_similar_fading_generator", "shape": "shape_setter"}.get(
+            (cfg.get("root") or ("ctor",))[0], "constructor")
         s = np.asarray(g.get_samples())
-        if s.shape != shp + (1,):
-            chk.fail(("constructor", "wrong_shape"), case, observed=s.shape, expected=shp + (1,))
-            return
-        ref = jakes_reference(cfg, st.phi, st.psi, 0, 1)
-        if not np.all(np.abs(s - ref) <= ABS_V):
-            chk.fail(("constructor", "sample0_value"), case, observed=s.ravel()[:3], expected=ref.ravel()[:3])
+        if how != "shape_setter":
+            # a constructed / derived generator holds sample 0 of ITS process
+            if s.shape != shp + (1,):
+                chk.fail((how, "wrong_shape"), case, observed=s.shape, expected=shp + (1,))
+                return
+            ref = jakes_reference(cfg, st.phi, st.psi, 0, 1)
+            if not np.all(np.abs(s - ref) <= ABS_V):
+                chk.fail((how, "sample0_value"), case, observed=s.ravel()[:3], expected=ref.ravel()[:3])
         for name, want in (("Fd", Fd), ("Ts", cfg["Ts"]), ("L", L)):
             if getattr(g, name) != want:
                 chk.fail(("constructor", "property_" + name), case, observed=getattr(g, name), expected=want)
@@ -313,8 +347,8 @@ def check_state(chk, cfg, hist, st):
     one_max = DIFF_ONE_REQUEST_MAX_BLOCK if cfg.get("block") else DIFF_ONE_REQUEST_MAX
     if k0 + n <= one_max:
         f = new_generator(cfg)
-        f.generate_more_samples(k0 + n - 1)          # positions 1 .. k0+n-1 in ONE request
-        one = np.asarray(f.get_samples())[..., k0 - 1:]
+        f.generate_more_samples(k0 + n - ks)          # positions ks .. k0+n-1 in ONE request
+        one = np.asarray(f.get_samples())[..., k0 - ks:]
         chk.count("eval_differential_one_request")
         if one.shape != s.shape or not np.all(np.abs(one - s) <= tol):
             chk.fail(("generate_more_samples", "differs_from_one_request", pos_bucket(k0)), case,
@@ -324,7 +358,7 @@ def check_state(chk, cfg, hist, st):
     if cfg.get("block") and k0 + n <= one_max:
         # the same stretch from a twin that only ever issues CHUNK-sample requests
         f = new_generator(cfg)
-        pieces, pos = [], 1
+        pieces, pos = [], ks
         while pos < k0 + n:
             m = min(CHUNK, k0 + n - pos)
             f.generate_more_samples(m)
@@ -336,9 +370,9 @@ def check_state(chk, cfg, hist, st):
         if ch.shape != s.shape or not np.all(np.abs(ch - s) <= tol):
             chk.fail(("generate_more_samples", "differs_from_%d_sample_chunks" % CHUNK, pos_bucket(k0)), case,
                      observed=s.ravel()[:3], expected=ch.ravel()[:3])
-    if k0 > 1 and len(hist) > 1:
+    if k0 > ks and len(hist) > 1:
         f = new_generator(cfg)
-        f.skip_samples_for_next_generation(k0 - 1)
+        f.skip_samples_for_next_generation(k0 - ks)
         try:
             f.generate_more_samples(n)
         except ValueError:
